@@ -362,6 +362,10 @@ func damageArtefact(raw []byte, fmtName string, toks []sealedTok, dmg []ctnDamag
 				raw = append([]byte{}, raw[:(blocks[k].cidStart+blocks[k].dataStart)/2]...)
 			case "zerolen":
 				raw = append(append(append([]byte{}, raw[:blocks[k].start]...), 0), raw[blocks[k].start:]...)
+			case "shortcid":
+				// a section inserted before block k that ends on a field boundary of its CID (version | codec | hash code | length)
+				short := [][]byte{{0x01, 0x01}, {0x02, 0x01, 0x71}, {0x03, 0x01, 0x71, 0x12}, {0x04, 0x01, 0x71, 0x12, 0x20}}[(k+len(dmg)+len(raw))%4]
+				raw = append(append(append([]byte{}, raw[:blocks[k].start]...), short...), raw[blocks[k].start:]...)
 			case "oversize":
 				buf := make([]byte, 10)
 				n := binary.PutUvarint(buf, 40<<20)
@@ -484,6 +488,41 @@ func init() {
 		w := newWorld(envSeed(), fastAlgs)
 		tokCache := map[int][]sealedTok{}
 		var others []sealedTok
+		// every key algorithm the DID package generates (incl. its own RSA keys) through every format and variant
+		{
+			var all []sealedTok
+			for i, alg := range []string{"ed25519", "secp256k1", "p256", "p384", "p521", "rsa"} {
+				t2, err := makeTokens(newWorld(envSeed()+int64(i), []string{alg}), 2, i)
+				if err != nil {
+					return err
+				}
+				all = append(all, t2...)
+			}
+			order := make([]int, len(all))
+			for i := range order {
+				order[i] = i + 1
+			}
+			for _, f := range []string{"car", "cbor"} {
+				for _, b64 := range []bool{false, true} {
+					for _, wv := range []string{"bytes", "stream"} {
+						rep.Evaluations++
+						data, err := writeContainer(all, order, f, b64, wv)
+						if err != nil {
+							rep.violation(map[string]any{"fmt": f, "b64": b64, "writer": wv}, "written", err.Error(), "writing a container with tokens of every key algorithm failed")
+							continue
+						}
+						rv := map[string]string{"bytes": "stream", "stream": "bytes"}[wv]
+						rd, err := readContainer(data, f, b64, rv, nil)
+						if err != nil {
+							rep.violation(map[string]any{"fmt": f, "b64": b64, "writer": wv, "reader": rv}, "the tokens that were added", err.Error(),
+								"a container holding tokens of every key algorithm cannot be read back")
+						} else if why := sameSet(rd, all); why != "" {
+							rep.violation(map[string]any{"fmt": f, "b64": b64}, "exactly the tokens that were added", why, "round trip with tokens of every key algorithm")
+						}
+					}
+				}
+			}
+		}
 		for _, raw := range cases {
 			var c ctnCase
 			if err := json.Unmarshal(raw, &c); err != nil {
